@@ -167,6 +167,7 @@ def plan(ctx):
     tasks = []
     all_names = list(SPECIALS)
     for kind in vloop.KINDS:
+        tasks.append((kind, "r1", "raise_bare", 1, ["close", "reset"]))
         for mode in ("ok", "raise", "slow"):
             if ctx.thorough:
                 tasks.append((kind, "r1", mode, 2, all_names))
